@@ -141,6 +141,8 @@ Definition normalise (neg : bool) (nat0 : bytes) (fra : nat) : option number :=
       let nat2 := rev r in
       Some (mknum (neg && negb (Nat.eqb (length nat2) 0))%bool nat2 fra').
 
+Definition max_exponent_zeros : Z := 10000%Z.
+
 Definition scan (value : bytes) : option number :=
   match nrun SStart acc0 0 value with
   | None => None
@@ -151,6 +153,9 @@ Definition scan (value : bytes) : option number :=
       match oe with
       | None => None
       | Some e =>
+        (* setExp (fix dbc9afe): an exponent that would add more than max_exponent_zeros zeros to the written digits is refused
+           before anything is allocated *)
+        if (Z.ltb (max_exponent_zeros + a_fraLen a) e || Z.ltb (max_exponent_zeros + a_intLen a) (- e))%bool then None else
         let intLen := (a_intLen a + e)%Z in
         let fraLen := (a_fraLen a - e)%Z in
         let ds := append_digits value in
